@@ -505,21 +505,89 @@ fn process_engine(rep: &Report, seed: u64, tier: Tier) {
 }
 
 /// Lying servers against info/clone over HTTP.
+/// Responses whose *headers* are hostile while status and body may be perfectly fine: each
+/// entry is (name, status line, extra header lines, send the correct body?, declare the
+/// correct Content-Length?). Sent raw, connection closed afterwards.
+fn header_lies() -> Vec<(&'static str, &'static str, Vec<Vec<u8>>, bool, bool)> {
+    let h = |x: &str| x.as_bytes().to_vec();
+    let mut v: Vec<(&'static str, &'static str, Vec<Vec<u8>>, bool, bool)> = vec![
+        ("content-range */0", "HTTP/1.1 206 Partial Content", vec![h("Content-Range: */0")], true, true),
+        ("content-range *", "HTTP/1.1 206 Partial Content", vec![h("Content-Range: *")], true, true),
+        ("content-range unit only", "HTTP/1.1 206 Partial Content", vec![h("Content-Range: bytes")], true, true),
+        ("content-range empty", "HTTP/1.1 206 Partial Content", vec![h("Content-Range:")], true, true),
+        ("content-range without unit", "HTTP/1.1 206 Partial Content", vec![h("Content-Range: 0-9/9")], true, true),
+        ("content-range bytes */*", "HTTP/1.1 206 Partial Content", vec![h("Content-Range: bytes */*")], true, true),
+        ("content-range reversed", "HTTP/1.1 206 Partial Content", vec![h("Content-Range: bytes 9-2/1")], true, true),
+        ("content-range beyond u64", "HTTP/1.1 206 Partial Content", vec![h("Content-Range: bytes 18446744073709551616-18446744073709551617/2")], true, true),
+        ("content-range with =", "HTTP/1.1 206 Partial Content", vec![h("Content-Range: bytes=0-1")], true, true),
+        ("content-range other offset", "HTTP/1.1 206 Partial Content", vec![h("Content-Range: bytes 1-2/3")], true, true),
+        ("content-range not utf-8", "HTTP/1.1 206 Partial Content", vec![b"Content-Range: by\xfftes \xc3\x28 1-\xf0\x9f".to_vec()], true, true),
+        ("content-range multi-byte at byte 5", "HTTP/1.1 206 Partial Content", vec![b"Content-Range: byte\xc3\xa9 0-1/2".to_vec()], true, true),
+        ("content-range 10 kB", "HTTP/1.1 206 Partial Content", vec![format!("Content-Range: bytes {}", "9".repeat(10_000)).into_bytes()], true, true),
+        ("content-length negative", "HTTP/1.1 206 Partial Content", vec![h("Content-Length: -5")], true, false),
+        ("content-length not a number", "HTTP/1.1 206 Partial Content", vec![h("Content-Length: abc")], true, false),
+        ("content-length beyond u64", "HTTP/1.1 206 Partial Content", vec![h("Content-Length: 18446744073709551616")], true, false),
+        ("two different content-lengths", "HTTP/1.1 206 Partial Content", vec![h("Content-Length: 3"), h("Content-Length: 70000")], true, false),
+        ("no content-length", "HTTP/1.1 206 Partial Content", vec![], true, false),
+        ("chunked with a bad chunk size", "HTTP/1.1 206 Partial Content", vec![h("Transfer-Encoding: chunked")], true, false),
+        ("content-encoding gzip on raw bytes", "HTTP/1.1 206 Partial Content", vec![h("Content-Encoding: gzip")], true, true),
+        ("content-encoding br on raw bytes", "HTTP/1.1 206 Partial Content", vec![h("Content-Encoding: br")], true, true),
+        ("status line without reason", "HTTP/1.1 206", vec![], true, true),
+        ("http/1.0", "HTTP/1.0 206 Partial Content", vec![], true, true),
+        ("status 999", "HTTP/1.1 999 Whatever", vec![], true, true),
+        ("status 100 and nothing else", "HTTP/1.1 100 Continue", vec![], false, false),
+        ("status 204", "HTTP/1.1 204 No Content", vec![], false, false),
+        ("status 304", "HTTP/1.1 304 Not Modified", vec![], false, false),
+        ("redirect to itself", "HTTP/1.1 301 Moved Permanently", vec![h("Location: /a.cba")], false, true),
+        ("redirect without location", "HTTP/1.1 302 Found", vec![], false, true),
+        ("redirect to a bad url", "HTTP/1.1 307 Temporary Redirect", vec![b"Location: http://[::1\xff/".to_vec()], false, true),
+        ("header without colon", "HTTP/1.1 206 Partial Content", vec![h("this line is not a header")], true, true),
+        ("100 kB header line", "HTTP/1.1 206 Partial Content", vec![format!("X-Pad: {}", "a".repeat(100_000)).into_bytes()], true, true),
+        ("accept-ranges none", "HTTP/1.1 206 Partial Content", vec![h("Accept-Ranges: none")], true, true),
+    ];
+    let many: Vec<Vec<u8>> = (0..2000).map(|i| format!("X-H{}: v", i).into_bytes()).collect();
+    v.push(("2000 headers", "HTTP/1.1 206 Partial Content", many, true, true));
+    v
+}
+
+fn header_lie_response(lie: &(&'static str, &'static str, Vec<Vec<u8>>, bool, bool), correct: &[u8]) -> Vec<u8> {
+    let mut r = Vec::new();
+    r.extend_from_slice(lie.1.as_bytes());
+    r.extend_from_slice(b"\r\n");
+    let body: &[u8] = if lie.3 { correct } else { b"" };
+    if lie.4 {
+        r.extend_from_slice(format!("Content-Length: {}\r\n", body.len()).as_bytes());
+    }
+    for l in &lie.2 {
+        r.extend_from_slice(l);
+        r.extend_from_slice(b"\r\n");
+    }
+    r.extend_from_slice(b"Connection: close\r\n\r\n");
+    if lie.0.starts_with("chunked") {
+        r.extend_from_slice(b"ffffffffffffffffff\r\n");
+    }
+    r.extend_from_slice(body);
+    r
+}
+
 fn server_engine(rep: &Report, seed: u64, tier: Tier) {
-    let n = tier.pick(400, 3000);
+    let n = tier.pick(900, 6000);
+    let hlies = Arc::new(header_lies());
     let res = par_map(n, crate::util::ncpu(), |i| {
         let mut rng = Rng::new(seed).fork(0x1510 + i as u64);
         let comp = *rng.pick(&[(0u32, 0u32), (3, 4), (2, 3)]);
         let kind = rng.below(3);
         let (_src, _d, _b, valid) = base_archive(&mut rng, comp, kind);
         let target = rng.below(4);
-        let how = rng.below(13);
+        let how = if rng.chance(1, 2) { rng.below(13) } else { 13 + rng.below(hlies.len() as u64) };
         // A third of the servers keep lying from that request on (a truncated file on a
         // static server, a broken proxy): the client must give up, not ask forever.
         let persistent = rng.chance(1, 3);
         let lie_seed = rng.next_u64();
         let names = ["extra bytes", "long content-length", "short content-length", "wrong status + html", "empty body", "status 200 whole file", "random bytes longer than asked", "416 empty body", "half of the requested bytes", "connection closed without a reply", "a reply that is not HTTP", "content-length 2^62", "content-length 2^40"];
-        let desc = format!("request#{}{}:{}", target, if persistent { "+" } else { "" }, names[how as usize]);
+        let lie_name = if how < 13 { names[how as usize].to_string() } else { format!("headers: {}", hlies[how as usize - 13].0) };
+        let desc = format!("request#{}{}:{}", target, if persistent { "+" } else { "" }, lie_name);
+        let hl = hlies.clone();
         let server = Server::start(
             Arc::new(valid.clone()),
             Arc::new(move |req, f| {
@@ -531,6 +599,7 @@ fn server_engine(rep: &Report, seed: u64, tier: Tier) {
                 let mut rng = Rng::new(lie_seed);
                 let correct = f[(a as usize).min(f.len())..(a as usize + len).min(f.len())].to_vec();
                 match how {
+                    h if h >= 13 => Action::Raw(header_lie_response(&hl[h as usize - 13], &correct)),
                     11 => Action::Custom { status: 206, declared_len: Some(1 << 62), body: correct },
                     12 => Action::Custom { status: 206, declared_len: Some(1 << 40), body: correct },
                     9 => Action::Drop,
@@ -586,7 +655,7 @@ fn server_engine(rep: &Report, seed: u64, tier: Tier) {
             continue;
         }
         rep.count("process.lying_server_runs", 1);
-        let lie = format!("{}{}", desc.split(':').nth(1).unwrap_or(""), if desc.contains('+') { " (persistent)" } else { "" });
+        let lie = format!("{}{}", desc.splitn(2, ':').nth(1).unwrap_or(""), if desc.contains('+') { " (persistent)" } else { "" });
         rep.seen("server_lies", lie.clone());
         if let Some(k) = kind {
             let sig = format!("c15/server/{}/{}", lie, k);
